@@ -301,6 +301,50 @@ func c03RunForced(c c03Case) error {
 	return nil
 }
 
+// long recipes whose first candidate is forced to one repeated character (it
+// misses a requirement); the stream is pseudo-random afterwards
+var longInvalidFirstGen = func(t *rapid.T) c03Case {
+	sp := oracle.CharSpec{Length: rapid.IntRange(20, 220).Draw(t, "length"),
+		Allow:   uint32(rapid.SampledFrom([]int{3, 7, 15, 4, 1, 31}).Draw(t, "allow")),
+		Require: uint32(rapid.SampledFrom([]int{4, 8, 12, 5, 16, 6}).Draw(t, "require")),
+		Exclude: uint32(rapid.SampledFrom([]int{0, 16, 16, 8}).Draw(t, "exclude"))}
+	if rapid.Bool().Draw(t, "custom") {
+		sp.RequireSets = []string{rapid.SampledFrom([]string{"abcdef", "é", "xyz", "!"}).Draw(t, "set")}
+	}
+	return c03Case{Spec: sp, Key: rapid.Uint64().Draw(t, "key")}
+}
+
+var longInvalidFirstRun = func(c c03Case) error {
+	sp := c.Spec
+	if rf, b := sp.Feasibility(spg.MaxTrials, spg.MaxFailRate); rf || b {
+		return &ev.Skip{Why: "refused"}
+	}
+	r := toRecipe(sp)
+	L := sp.Length
+	for _, j := range []uint64{0, 1 << 40, c.Key} {
+		o := callForced(nil, func(k int, n uint32) uint32 {
+			if k < L {
+				return uint32(j % uint64(n))
+			}
+			return uint32(ev.Mix64(c.Key, uint64(k)) % uint64(n))
+		}, c.Key, r.Generate)
+		if o.Panic != nil {
+			return fmt.Errorf("Generate panicked: %v", o.Panic)
+		}
+		if o.Pw == nil {
+			continue
+		}
+		if len(o.S.Draws) > L {
+			ev.Class("long_first_candidate_rejected")
+		}
+		if err := checkCharPassword(sp, o.Pw); err != nil {
+			return fmt.Errorf("first candidate forced to one repeated character: %w", err)
+		}
+	}
+	ev.NonTrivial(fmt.Sprintf("long|%+v", sp))
+	return nil
+}
+
 func TestC03(t *testing.T) {
 	if !requireHooks(t) {
 		return
@@ -355,46 +399,7 @@ func TestC03(t *testing.T) {
 		return nil
 	})
 	// 2c. long recipes: the first candidate is forced to one repeated character
-	// (it misses a requirement), the stream is pseudo-random afterwards
-	ev.Check(t, "c03_long_invalid_first", ev.N(1600, 30000), func(t *rapid.T) c03Case {
-		sp := oracle.CharSpec{Length: rapid.IntRange(20, 220).Draw(t, "length"),
-			Allow:   uint32(rapid.SampledFrom([]int{3, 7, 15, 4, 1, 31}).Draw(t, "allow")),
-			Require: uint32(rapid.SampledFrom([]int{4, 8, 12, 5, 16, 6}).Draw(t, "require")),
-			Exclude: uint32(rapid.SampledFrom([]int{0, 16, 16, 8}).Draw(t, "exclude"))}
-		if rapid.Bool().Draw(t, "custom") {
-			sp.RequireSets = []string{rapid.SampledFrom([]string{"abcdef", "é", "xyz", "!"}).Draw(t, "set")}
-		}
-		return c03Case{Spec: sp, Key: rapid.Uint64().Draw(t, "key")}
-	}, func(c c03Case) error {
-		sp := c.Spec
-		if rf, b := sp.Feasibility(spg.MaxTrials, spg.MaxFailRate); rf || b {
-			return &ev.Skip{Why: "refused"}
-		}
-		r := toRecipe(sp)
-		L := sp.Length
-		for _, j := range []uint64{0, 1 << 40, c.Key} {
-			o := callForced(nil, func(k int, n uint32) uint32 {
-				if k < L {
-					return uint32(j % uint64(n))
-				}
-				return uint32(ev.Mix64(c.Key, uint64(k)) % uint64(n))
-			}, c.Key, r.Generate)
-			if o.Panic != nil {
-				return fmt.Errorf("Generate panicked: %v", o.Panic)
-			}
-			if o.Pw == nil {
-				continue
-			}
-			if len(o.S.Draws) > L {
-				ev.Class("long_first_candidate_rejected")
-			}
-			if err := checkCharPassword(sp, o.Pw); err != nil {
-				return fmt.Errorf("first candidate forced to one repeated character: %w", err)
-			}
-		}
-		ev.NonTrivial(fmt.Sprintf("long|%+v", sp))
-		return nil
-	})
+	ev.Check(t, "c03_long_invalid_first", ev.N(1600, 30000), longInvalidFirstGen, longInvalidFirstRun)
 	// 3. recipes x forced draws
 	ev.Check(t, "c03_forced", ev.N(480, 12000), func(t *rapid.T) c03Case {
 		c := c02Gen(t)
